@@ -79,6 +79,9 @@ def rules(chk, db):
     # ... and the fd reader delivers a well-formed encoding that arrives in pieces: a short read(2) is not the end of the data
     chk.rule('FDR', 'fd reader: success only when read() returned the requested bytes; a short read continues, 0 => ReadLimitReached', minimum=2)
     rwrules.check_fd_class(chk, db, 'nop::FdReader', 'reader', 'FDR')
+    # a well-formed table from a newer definition (more entries, unknown ids) is accepted: the decoder refuses only a wrong hash
+    from .. import tablerules
+    tablerules.rules(chk, db, {'TL'})
 
 
 def run(chk, db):
